@@ -169,6 +169,31 @@ def bystander_family(tier="quick"):
         out.append(s)
     return out
 
+def observability_family(tier="quick"):
+    """Configuration and input dimensions of the observability surfaces (C09/C11): every loggingConfiguration level with and
+    without execution data, STANDARD and EXPRESS, and execution inputs that are legal JSON but falsy in Python."""
+    out = []
+    base = {s["name"]: s for s in handler_coverage_corpus()}
+    picks = ["task-next", "task-error", "parallel-next", "map-next", "pass-next-end", "task-error-caught"]
+    cfgs = [("all-nodata", {"level": "ALL", "includeExecutionData": False}), ("all-data", {"level": "ALL", "includeExecutionData": True}),
+            ("error-nodata", {"level": "ERROR", "includeExecutionData": False}), ("fatal", {"level": "FATAL"}), ("off", {"level": "OFF"})]
+    for nm in picks:
+        for cn, cfg in cfgs:
+            s = copy.deepcopy(base[nm])
+            s["name"] = "log-%s+%s" % (cn, nm); s["family"] = "logging-%s+%s" % (cn, base[nm]["family"])
+            s["machines"]["m"]["loggingConfiguration"] = dict(cfg, destinations=[{"cloudWatchLogsLogGroup": {"logGroupArn": "arn:aws:logs:local:0123456789:log-group:g:*"}}])
+            out.append(s)
+    # falsy / scalar / array inputs, both types, through a machine whose output is its input (Pass) and one that fails
+    echo = chain(("A", Pass()), ("Z", Pass()))
+    failing = chain(("A", Pass()), ("F", Fail("E.f", "because")))
+    for typ in ("STANDARD", "EXPRESS"):
+        for iname, inp in (("empty-array", []), ("zero", 0), ("empty-string", ""), ("false", False), ("empty-object", {}), ("array", [0, ""]), ("string", "s"), ("number", 1.5), ("true", True)):
+            for mname, d in (("echo", echo), ("fail", failing)):
+                if tier == "quick" and mname == "fail" and iname in ("array", "string", "number", "true"):
+                    continue
+                out.append(scenario("input-%s-%s-%s" % (iname, mname, typ.lower()), d, input=inp, typ=typ, family="input-%s-%s-%s" % (iname, mname, typ.lower())))
+    return out
+
 def poison_corpus():
     """Poison messages on the shared queue next to a healthy execution (C03 poison clause / C18)."""
     out = []
